@@ -42,6 +42,15 @@ br_ecdsa_i15_bits2int(uint16_t *x,
 	}
 	br_i15_zero(x, ebitlen);
 	br_i15_decode(x, src, len);
+
+	/*
+	 * The value may be secret (RFC 6979 nonce): its actual bit length,
+	 * as computed by the decoding function, must not drive the shift.
+	 * We announce the length of the source string instead, which is
+	 * public and covers all the words that were just written.
+	 */
+	hbitlen = (uint32_t)len << 3;
+	x[0] = hbitlen + (hbitlen / 15);
 	br_i15_rshift(x, sc);
 	x[0] = ebitlen;
 }
